@@ -42,6 +42,10 @@ def _loop(want, rows):
             continue
         meta = json.load(open(os.path.join(d, "meta.json")))
         props = meta.get("checks", [meta.get("property")])
+        if meta.get("obsolete"):
+            # the change no longer breaks the property on the repaired tree (a later fix: made it harmless); kept for the record
+            rows.append((name, [{"check": "-", "exit": "-", "keys": "obsolete since %s: %s" % (meta["obsolete"]["since"], meta["obsolete"]["why"][:120])}]))
+            continue
         if want and not any(name.startswith(w) for w in want):
             rows.append((name, meta.get("checks_run_against_it", [])))
             continue
